@@ -28,7 +28,12 @@ def _make_fn(P, scalar):
         def impl2(x, x2):
             return v0.to(x.device) + x @ V1.T.to(x.device) + x2 @ V2.T.to(x.device)
         ns = {"impl": impl2}
-        exec(f"def fn({var}, {var2}):\n    return impl({var}, {var2})\n", ns)
+        if P.get("pydef"):
+            # the second argument has a Python default value (never the value the cases supply)
+            ns["dflt"] = torch.full((1, V2.shape[1]), 7.7)
+            exec(f"def fn({var}, {var2}=dflt):\n    return impl({var}, {var2})\n", ns)
+        else:
+            exec(f"def fn({var}, {var2}):\n    return impl({var}, {var2})\n", ns)
         return ns["fn"]
     if P["k"] == "affine":
         V1 = torch.tensor(P["V1"], dtype=torch.float32)
@@ -65,11 +70,20 @@ def domain(E):
     if t == "tri":
         return D.Triangle(space_of(E["var"], 2), param(E["o"]), param(E["c1"]), param(E["c2"]))
     if t == "poly":
+        def ring(r):
+            # "dup": a ring handed to the library with one vertex repeated (two identical consecutive
+            # vertices are valid for shapely and denote the same polygon; the reference uses the plain ring)
+            r = [list(v) for v in r]
+            d = E.get("dup")
+            if d is not None:
+                j = int(d) % len(r)
+                r = r[:j + 1] + [list(r[j])] + r[j + 1:]
+            return r
         if E.get("hole"):
             import shapely.geometry as sg
             return ShapelyPolygon(space_of(E["var"], 2),
-                                  shapely_polygon=sg.Polygon(E["verts"], holes=[E["hole"]]))
-        return ShapelyPolygon(space_of(E["var"], 2), vertices=[list(v) for v in E["verts"]])
+                                  shapely_polygon=sg.Polygon(ring(E["verts"]), holes=[ring(E["hole"])]))
+        return ShapelyPolygon(space_of(E["var"], 2), vertices=ring(E["verts"]))
     if t == "mesh":
         return TrimeshPolyhedron(space_of(E["var"], 3), vertices=E["verts"], faces=E["faces"])
     if t == "point":
